@@ -120,6 +120,27 @@ class Model:
                 self.members[u].append("b%d" % self.nbulk)
                 self.nbulk += 1
             return ("none",)
+        if name == "newu_big":
+            n = self._new_vertex()
+            self.members[n] = []
+            for _ in range(r[2]):
+                self.members[n].append("b%d" % self.nbulk)
+                self.nbulk += 1
+            for v in r[1]:
+                self.members[n].append(v)
+                self.unis_of[v].append(n)
+            return ("newvertex", n)
+        if name == "churn":
+            _, u, K = r
+            for _ in range(K):
+                if not self.members[u]:
+                    break
+                m = self.members[u].pop(0)
+                self.members[u].append(m)
+                if not isinstance(m, str):
+                    self.unis_of[m].remove(u)
+                    self.unis_of[m].append(u)
+            return ("none",)
         if name in ("ua", "va"):
             u, v = r[1], r[2]
             if v not in self.members[u]:
